@@ -491,6 +491,14 @@ func (c *chain) afterAppend(b *types.WorkObject) {
 		}
 	}
 	for _, e := range b.OutboundEtxs() {
+		switch {
+		case types.IsCoinBaseTx(e):
+			c.rep.Count("outbound/coinbase")
+		case types.IsConversionTx(e):
+			c.rep.Count("outbound/conversion")
+		default:
+			c.rep.Count("outbound/cross-zone")
+		}
 		if e.To() != nil && e.To().Location().Equal(loc) {
 			c.out = append(c.out, e)
 		}
